@@ -121,4 +121,44 @@ example : docOrder ["zz", "Y", "S", "X", "Y", "zz", "#"] = ["#", "S", "zz", "zz"
 
 example : writeOrder groupOf nGroups ["L", "S", "#", "X", "H", "S", "P", "C"] = ["#", "H", "S", "S", "L", "C", "P", "X"] := by decide
 
+theorem flatMap_range_sorted {α} (key : α → Nat) (ls : List α) : ∀ n,
+    (((List.range n).flatMap (fun h => ls.filter (fun x => key x == h))).map key).Pairwise (· ≤ ·) ∧
+    ∀ x ∈ (List.range n).flatMap (fun h => ls.filter (fun x => key x == h)), key x < n := by
+  intro n
+  induction n with
+  | zero => simp
+  | succ k ih =>
+    rw [List.range_succ, List.flatMap_append]
+    simp only [List.flatMap_cons, List.flatMap_nil, List.append_nil, List.map_append]
+    constructor
+    · rw [List.pairwise_append]
+      refine ⟨ih.1, ?_, ?_⟩
+      · rw [List.pairwise_map]
+        apply List.Pairwise.imp_of_mem (R := fun _ _ => True)
+        · intro a b ha hb _
+          have h1 := (List.mem_filter.mp ha).2
+          have h2 := (List.mem_filter.mp hb).2
+          simp only [beq_iff_eq] at h1 h2
+          omega
+        · exact List.pairwise_of_forall (fun _ _ => trivial)
+      · intro a ha b hb
+        obtain ⟨x, hx, rfl⟩ := List.mem_map.mp ha
+        obtain ⟨y, hy, rfl⟩ := List.mem_map.mp hb
+        have h1 := ih.2 x hx
+        have h2 := (List.mem_filter.mp hy).2
+        simp only [beq_iff_eq] at h2
+        omega
+    · intro x hx
+      rcases List.mem_append.mp hx with h | h
+      · have := ih.2 x h; omega
+      · have h2 := (List.mem_filter.mp h).2
+        simp only [beq_iff_eq] at h2
+        omega
+
+/-- **the groups are written in ascending order**: in the written document no record of a later group precedes a
+    record of an earlier one (comments, headers, segments, edges, paths, sets, gaps, fragments, custom records) -/
+theorem writeOrder_sorted {α} (key : α → Nat) (n : Nat) (ls : List α) :
+    ((writeOrder key n ls).map key).Pairwise (· ≤ ·) :=
+  (flatMap_range_sorted key ls n).1
+
 end Gfa.C01Doc
